@@ -73,6 +73,7 @@ type VC struct {
 	dynSig      *types.Signature
 	modBody     map[*ssa.BasicBlock]bool
 	modLocals   map[*ssa.Alloc]map[string]bool
+	modCells    []modCell
 }
 
 type loopInfo struct {
@@ -84,6 +85,7 @@ type loopInfo struct {
 	variant  Term
 	hasVar   bool
 	modLocals map[*ssa.Alloc]map[string]bool
+	modCells  []modCell
 }
 
 type deferred struct {
@@ -562,6 +564,26 @@ func (vc *VC) enterLoop(fr *Frame, li *loopInfo, merged *State, phiEntry map[*ss
 		}
 	}
 	if !all {
+		for _, mc := range li.modCells {
+			names := map[string]bool{}
+			vc.memNamesOf(mc.ty, names)
+			skip := false
+			for n := range names {
+				if mods[n] {
+					skip = true
+				}
+			}
+			if skip {
+				continue
+			}
+			addr := vc.val(fr, mc.base)
+			for _, f := range mc.fields {
+				addr = FldPtr(addr, f)
+			}
+			nv := vc.q.Fresh(fr.prefix+"$cell", vc.sortOf(mc.ty))
+			vc.q.Assert(vc.wfAssume(st, nv, mc.ty, 0))
+			vc.store(st, addr, mc.ty, nv)
+		}
 		for a, names := range li.modLocals {
 			p, ok := fr.vals[a]
 			if !ok {
@@ -655,7 +677,8 @@ func (vc *VC) loopMods(fr *Frame, li *loopInfo) (map[string]bool, bool) {
 	vc.modBody = li.body
 	vc.modLocals = map[*ssa.Alloc]map[string]bool{}
 	li.modLocals = vc.modLocals
-	defer func() { vc.modBody = nil; vc.modLocals = nil }()
+	vc.modCells = []modCell{}
+	defer func() { li.modCells = vc.modCells; vc.modBody = nil; vc.modLocals = nil; vc.modCells = nil }()
 	for b := range li.body {
 		for _, ins := range b.Instrs {
 			if vc.instrMods(fr, ins, mods, 0) {
@@ -672,14 +695,14 @@ func (vc *VC) loopMods(fr *Frame, li *loopInfo) (map[string]bool, bool) {
 func (vc *VC) instrMods(fr *Frame, ins ssa.Instruction, mods map[string]bool, depth int) bool {
 	switch t := ins.(type) {
 	case *ssa.Store:
-		if a := localAllocOf(t.Addr); a != nil {
+		if a := localAllocOf(t.Addr); a != nil && (!a.Heap || vc.modBody == nil || depth > 0 || vc.modBody[a.Block()]) {
 			if vc.modBody == nil || depth > 0 || vc.modBody[a.Block()] {
 				// writes into a non-escaping local that is (re)allocated inside the region: its rows
 				// are fresh on every execution and dead afterwards
 				break
 			}
 			// a local declared outside the region: only that object's rows change
-			if vc.modLocals != nil {
+			if vc.modLocals != nil && depth == 0 {
 				names := map[string]bool{}
 				vc.memNamesOf(t.Val.Type(), names)
 				if vc.modLocals[a] == nil {
@@ -691,6 +714,13 @@ func (vc *VC) instrMods(fr *Frame, ins ssa.Instruction, mods map[string]bool, de
 				break
 			}
 		}
+		if depth == 0 && vc.modCells != nil {
+			// a field of an object whose address does not change in the region: only that cell changes
+			if base, fields, ok := fieldChainOf(t.Addr, vc.modBody); ok {
+				vc.modCells = append(vc.modCells, modCell{base, fields, t.Val.Type()})
+				break
+			}
+		}
 		vc.memNamesOf(t.Val.Type(), mods)
 	case *ssa.MapUpdate:
 		mt := t.Map.Type().Underlying().(*types.Map)
@@ -699,7 +729,8 @@ func (vc *VC) instrMods(fr *Frame, ins ssa.Instruction, mods map[string]bool, de
 		mods[v] = true
 		mods["ML"] = true
 	case *ssa.Alloc:
-		if !t.Heap && (vc.modBody == nil || depth > 0 || vc.modBody[t.Block()]) {
+		if vc.modBody == nil || depth > 0 || vc.modBody[t.Block()] {
+			// allocated inside the region: a fresh object on every execution
 			break
 		}
 		vc.memNamesOf(t.Type().Underlying().(*types.Pointer).Elem(), mods)
@@ -743,9 +774,6 @@ func localAllocOf(addr ssa.Value) *ssa.Alloc {
 			}
 			addr = a.X
 		case *ssa.Alloc:
-			if a.Heap {
-				return nil
-			}
 			return a
 		default:
 			return nil
@@ -957,4 +985,38 @@ func instrIndex(v ssa.Value) int {
 		}
 	}
 	return 0
+}
+
+type modCell struct {
+	base   ssa.Value
+	fields []int
+	ty     types.Type
+}
+
+// fieldChainOf recognises &base.f1.f2... where base is defined outside the region.
+func fieldChainOf(addr ssa.Value, body map[*ssa.BasicBlock]bool) (ssa.Value, []int, bool) {
+	var fields []int
+	for {
+		fa, ok := addr.(*ssa.FieldAddr)
+		if !ok {
+			break
+		}
+		fields = append([]int{fa.Field}, fields...)
+		addr = fa.X
+	}
+	if len(fields) == 0 {
+		return nil, nil, false
+	}
+	switch b := addr.(type) {
+	case *ssa.Parameter, *ssa.FreeVar, *ssa.Global:
+		return addr, fields, true
+	case ssa.Instruction:
+		if _, isAlloc := addr.(*ssa.Alloc); isAlloc {
+			return nil, nil, false
+		}
+		if b.Block() != nil && !body[b.Block()] {
+			return addr, fields, true
+		}
+	}
+	return nil, nil, false
 }
